@@ -128,8 +128,9 @@ class Asset(DictCBORSerializable):
             return True
 
     def __le__(self, other: Asset) -> bool:
-        for n in self:
-            if n not in other or self[n] > other[n]:
+        # Component-wise: an asset name missing on either side counts as 0.
+        for n in set(self) | set(other):
+            if self.get(n, 0) > other.get(n, 0):
                 return False
         return True
 
@@ -194,8 +195,9 @@ class MultiAsset(DictCBORSerializable):
             return True
 
     def __le__(self, other: MultiAsset):
-        for p in self:
-            if p not in other or not self[p] <= other[p]:
+        # Component-wise: a policy missing on either side counts as an empty Asset.
+        for p in set(self) | set(other):
+            if not self.get(p, Asset()) <= other.get(p, Asset()):
                 return False
         return True
 
